@@ -108,6 +108,7 @@ class MarketRun:
               "buys": [order_fields(o) for o in buys], "sells": [order_fields(o) for o in sells],
               "gone": gone, "cur": self.slot(m.time),
               "past": self.slot(m.time - 1) if m.time > 0 else None,
+              "past_all": [self.slot(t) for t in range(m.time - 1, -1, -1)],
               "heapTopBuy": (m.buy_order_book.priority_queue[0].order_id
                              if m.buy_order_book.priority_queue else None),
               "heapTopSell": (m.sell_order_book.priority_queue[0].order_id
@@ -135,10 +136,9 @@ class MarketRun:
         for o, r in st["gone"]:
             t += self.order_tokens(o) + [str(r)]
         t += self.slot_tokens(st["cur"])
-        if st["past"] is not None:
-            t += ["1"] + self.slot_tokens(st["past"])
-        else:
-            t += ["0"]
+        t.append(str(len(st["past_all"])))
+        for sl in st["past_all"]:
+            t += self.slot_tokens(sl)
         return " ".join(t)
 
     # ---- executing ops -------------------------------------------------------------------
@@ -237,6 +237,18 @@ class MarketRun:
                             " %d %d %d %d %s %s %d %s" % (l.order_id, l.time, l.order_time,
                                                           l.agent_id, b2s(l.is_buy), fkey(l.price),
                                                           l.volume, opt(l.ttl)) for l in logs)))
+                elif kind == "jump":
+                    if emit:
+                        self.lines.append("O jump %d %s" % (op["k"], fkey(op["fund"])))
+                    m._set_time(m.time + op["k"], op["fund"])
+                    logs = [l for k, l in self.logger.seen[nseen:] if isinstance(l, ExpirationLog)]
+                    step["result"] = ("expiries", [log_fields(l) for l in logs])
+                    if emit:
+                        logs = sorted(logs, key=lambda l: l.order_id)
+                        self.lines.append("R tick %d%s" % (len(logs), "".join(
+                            " %d %d %d %d %s %s %d %s" % (l.order_id, l.time, l.order_time,
+                                                          l.agent_id, b2s(l.is_buy), fkey(l.price),
+                                                          l.volume, opt(l.ttl)) for l in logs)))
                 elif kind == "run":
                     if emit:
                         self.lines.append("O run %s" % b2s(op["on"]))
@@ -318,7 +330,9 @@ class MarketRun:
 def gen_history(rng, n_ops, profile=None):
     """one structured, mostly valid history.  All choices from `rng`."""
     profile = profile or rng.choice(["continuous", "continuous", "batch", "mixed", "marketheavy",
-                                     "deep", "expiry"])
+                                     "deep", "expiry", "sweep"])
+    if profile == "sweep":
+        return gen_sweep(rng, n_ops)
     tick = rng.choice([1.0, 1.0, 0.5, 0.25, 0.1, 0.01, 10.0])
     base = rng.choice([100.0, 300.0, 50.0, 1000.0])
     cfg = {"tick": tick, "price": base, "fund0": base, "profile": profile}
@@ -363,7 +377,10 @@ def gen_history(rng, n_ops, profile=None):
                 ops.append({"op": "exec"})
         elif r < 0.85:
             fund = fund * math.exp(rng.gauss(0, 0.01))
-            ops.append({"op": "tick", "fund": fund})
+            if rng.random() < 0.08:
+                ops.append({"op": "jump", "k": rng.choice([1, 2, 3, 5]), "fund": fund})
+            else:
+                ops.append({"op": "tick", "fund": fund})
         elif r < 0.90:
             if profile in ("batch", "mixed") or rng.random() < 0.3:
                 running = not running
@@ -382,6 +399,51 @@ def gen_history(rng, n_ops, profile=None):
             else:
                 ops.append({"op": "add", "agent": 0, "buy": True, "price": base, "vol": 1,
                             "ttl": None, "market": 7})
+    return cfg, ops
+
+
+def gen_sweep(rng, n_ops):
+    """deep one-sided book in shuffled arrival order, non-best cancels, then a multi-level sweep
+    (continuous: one large crossing order; batch: a crossed book cleared in one round)"""
+    tick = rng.choice([1.0, 0.5, 0.1])
+    base = rng.choice([100.0, 300.0])
+    cfg = {"tick": tick, "price": base, "fund0": base, "profile": "sweep"}
+    ops = [{"op": "run", "on": True}]
+    rest_buy = rng.random() < 0.5           # side of the resting book
+    depth = rng.randint(5, 10)
+    levels = list(range(1, depth + 1))
+    rng.shuffle(levels)
+    n = 0
+    for lv in levels:
+        px = base - lv * tick if rest_buy else base + lv * tick
+        ops.append({"op": "add", "agent": rng.randint(0, 3), "buy": rest_buy, "price": px,
+                    "vol": rng.randint(1, 2), "ttl": rng.choice([None, None, 4])})
+        n += 1
+        if rng.random() < 0.15:
+            ops.append({"op": "add", "agent": rng.randint(0, 3), "buy": rest_buy, "price": px,
+                        "vol": 1, "ttl": None})
+            n += 1
+    for _ in range(rng.randint(1, 3)):
+        ops.append({"op": "cancel", "ref": rng.randint(0, n - 1)})
+        ops.append({"op": "exec"})
+    if rng.random() < 0.3:
+        ops.append({"op": "tick", "fund": base})
+    batch = rng.random() < 0.4
+    if batch:
+        ops.append({"op": "run", "on": False})
+    k = rng.randint(2, depth)
+    for _ in range(rng.randint(1, 2) if batch else 1):
+        limit = None if rng.random() < 0.25 else (base - (k + 0.0) * tick if rest_buy else base + (k + 0.0) * tick)
+        ops.append({"op": "add", "agent": 4, "buy": not rest_buy, "price": limit, "vol": rng.randint(3, 2 * depth), "ttl": None})
+        n += 1
+        if not batch:
+            ops.append({"op": "exec"})
+    if batch:
+        ops.append({"op": "run", "on": True})
+        ops.append({"op": "exec"})
+    while len(ops) < min(n_ops, 30):
+        ops.append(rng.choice([{"op": "tick", "fund": base}, {"op": "exec"},
+                               {"op": "cancel", "ref": rng.randint(0, n - 1)}]))
     return cfg, ops
 
 
